@@ -14,7 +14,7 @@ import (
 // Tr is one trace in progress on a World.
 type Tr struct {
 	w     *World
-	t     *rt.Trace
+	t     tracer
 	ids   []string
 	tasks map[string]Shape
 	exec  map[string]bool
@@ -25,8 +25,15 @@ type Tr struct {
 	scan bool
 }
 
+// tracer is what a trace in progress writes to: the run's rt.Trace, or the
+// unbuffered line file of a child process (whose lines the parent re-emits).
+type tracer interface {
+	Reset(cfg rt.M)
+	Event(ev string, fields rt.M)
+}
+
 // Begin starts a trace with the given task definitions (none started yet).
-func (w *World) Begin(t *rt.Trace, tasks map[string]Shape, mode string) *Tr {
+func (w *World) Begin(t tracer, tasks map[string]Shape, mode string) *Tr {
 	w.trNo++
 	tr := &Tr{w: w, t: t, tasks: tasks, exec: map[string]bool{}, ids: rt.SortedKeys(tasks), no: int64(w.trNo), scan: w.trNo%50 == 0}
 	defs := rt.M{}
@@ -51,8 +58,13 @@ func (tr *Tr) mkPoints(pts []Pt) ([]imodels.Point, []string, []any) {
 	for i, p := range pts {
 		seq := tr.nw + i + 1
 		tm := rt.DefaultTime.T(seq)
-		ps = append(ps, mustPoint(p.Meas, map[string]string{"tag": p.Tag}, map[string]any{"seq": int64(seq), "tr": tr.no}, tm))
-		lines = append(lines, fmt.Sprintf("%s,tag=%s seq=%di,tr=%di %d", p.Meas, p.Tag, seq, tr.no, tm.Unix()))
+		tags, ltags := map[string]string{}, ""
+		if p.Tag != "" { // Tag "": the point does not carry the tag at all
+			tags["tag"] = p.Tag
+			ltags = ",tag=" + p.Tag
+		}
+		ps = append(ps, mustPoint(p.Meas, tags, map[string]any{"seq": int64(seq), "tr": tr.no}, tm))
+		lines = append(lines, fmt.Sprintf("%s%s seq=%di,tr=%di %d", p.Meas, ltags, seq, tr.no, tm.Unix()))
 		enc = append(enc, rt.M{"meas": p.Meas, "tag": p.Tag})
 	}
 	return ps, lines, enc
@@ -67,11 +79,16 @@ func (tr *Tr) writeCall(op Op, ps []imodels.Point, lines []string) (string, stri
 			via += "-" + op.Enc
 		}
 		if code == 204 {
+			tr.w.total.Add(int64(len(ps)))
 			return via, "ok"
 		}
 		return via, fmt.Sprintf("http status %d", code)
 	}
-	return "api", retStr(tr.w.Env.Write(op.DB, op.RP, ps...))
+	err := tr.w.Env.Write(op.DB, op.RP, ps...)
+	if err == nil {
+		tr.w.total.Add(int64(len(ps)))
+	}
+	return "api", retStr(err)
 }
 
 // Do executes one operation from the driver goroutine and logs it.
@@ -83,6 +100,9 @@ func (tr *Tr) Do(op Op) {
 		tr.nw += len(op.Pts)
 		via, ret := tr.writeCall(op, ps, lines)
 		tr.t.Event("Write", rt.M{"db": op.DB, "rp": op.RP, "pts": enc, "first": first, "via": via, "ret": ret})
+		if op.ISync && tr.w.SyncIngress() {
+			tr.t.Event("Sync", nil)
+		}
 		if op.Sync {
 			tr.Sync()
 		}
